@@ -86,6 +86,13 @@ def build(kind, out, race=False):
     if kind == "harness":
         cmd = ["go", "test", "-c", "-tags", "verif", "-vet=off", "-o", out, "./props"]
         cwd = os.path.join(VERIF, "harness")
+        if REPO != "/repo":
+            # tooling only (parallel seed sweeps in scratch worktrees): same go.mod with the replace pointing elsewhere
+            mf = out + ".go.mod"
+            with open(mf, "w") as f:
+                f.write(open(os.path.join(cwd, "go.mod")).read().replace("=> /repo", "=> " + REPO))
+            shutil.copy(os.path.join(cwd, "go.sum"), out + ".go.sum")
+            cmd[3:3] = ["-modfile", mf]
     else:
         pkgdir = {"storage": "storage", "csvimport": "cmd/csvimport", "console": "cmd/console"}[kind]
         ensure_modfile()
@@ -421,8 +428,9 @@ def run(pid, spec, tier, seed, replay, root, t0):
     if trouble:
         ev["coverage"]["inconclusive"] = trouble[:10]
     if not replay:
-        os.makedirs(os.path.join(VERIF, "evidence"), exist_ok=True)
-        with open(os.path.join(VERIF, "evidence", "%s.json" % pid), "w") as f:
+        evdir = os.environ.get("VERIF_EVIDENCE", os.path.join(VERIF, "evidence"))
+        os.makedirs(evdir, exist_ok=True)
+        with open(os.path.join(evdir, "%s.json" % pid), "w") as f:
             json.dump(ev, f, indent=1, sort_keys=True)
             f.write("\n")
 
